@@ -382,5 +382,7 @@ func runC10(c *Ctx) {
 		runBatch(rnd, pre, post)
 		emit(rnd)
 	}
+	// 5. the input class excluded by the theorems' `Fresh` hypothesis (direct oracle only)
+	runC10Collide(c, snaps)
 	_ = context.Background
 }
